@@ -43,6 +43,7 @@ STRENGTHENED = {
     "C14-5": "C14: generated heartbeat configuration (200 ms, timeout 0.7-2 s, with/without empty heartbeats) so that idle periods exceed the timeout before more writes",
     "C14-6": "C14: 'huge value' class (single puts of 260 KiB-1.5 MiB that a late-joining / restarted / lagging replica has to fetch)",
     "C15-6": "C15: 'reconnect_storm' fault class (streams registered and cancelled in a tight loop, heartbeat every 1-5 ms); a primary killed by the Go runtime is a violation",
+    "C17-6": "C17: slow commits (delay in the storage wrapper) overlapped by a second finisher / CleanupConnection / sweep / shutdown; every registry and service call bounded through tracking proxies",
     "C13-4": "C13: real Replica state machine with injected transient apply failures (error state -> recovery -> new stream)",
     "C15-4": "C15: primary with a pre-history (older log files in the directory) so that the ack path's retention pass has work to do",
 }
